@@ -19,6 +19,7 @@ import (
 	"github.com/consensys/gnark/std/hash/mimc"
 	"github.com/consensys/gnark/test"
 
+	"verifharness/circuits"
 	"verifharness/common"
 )
 
@@ -68,7 +69,7 @@ type GkrRes struct {
 	Problems []string `json:"problems"`
 }
 
-const c19Hash = "verif-mimc"
+const c19Hash = circuits.GkrHashName
 
 var c19Once sync.Once
 var c19EngineMu sync.Mutex
